@@ -124,6 +124,79 @@ func runC04(c *Ctx) {
 		}
 	})
 	runR043(c)
+	checkIsDestWrittenOnce(c)
+	checkUnreachablePredicate(c, "R04.4")
+}
+
+// checkIsDestWrittenOnce is R04.5: the destination mark is decided where the reply is matched and nowhere else – every store to
+// ProbeResponse.IsDest (and to TracerouteHop.IsDest) initialises a value the same function has just allocated. A later write
+// (the merge 'remembering' that a TTL reached the destination) marks a hop whose address and RTT came from another reply.
+func checkIsDestWrittenOnce(c *Ctx) {
+	R := c.R
+	n := 0
+	for _, f := range c.P.ModFuncs {
+		if strings.Contains(core.FuncName(f), "Mock") || core.ShortPkg(core.FuncPkg(f)) == "testutils" {
+			continue
+		}
+		for _, b := range f.Blocks {
+			for _, in := range b.Instrs {
+				st, ok := in.(*ssa.Store)
+				if !ok {
+					continue
+				}
+				fa, ok := st.Addr.(*ssa.FieldAddr)
+				if !ok || core.FieldName(fa) != "IsDest" {
+					continue
+				}
+				if !isNamed(fa.X.Type(), core.ModulePath+"/common", "ProbeResponse") && !isNamed(fa.X.Type(), core.ModulePath+"/result", "TracerouteHop") {
+					continue
+				}
+				n++
+				_, fresh := fa.X.(*ssa.Alloc)
+				fn := core.FuncName(f)
+				zero := false
+				if k, isK := st.Val.(*ssa.Const); isK && k.Value != nil && k.Value.ExactString() == "false" {
+					zero = true // clearing the mark (redaction) cannot create a wrong destination
+				}
+				R.Check(fresh || zero, "R04.5", fmt.Sprintf("%s#isdest-store@b%d", fn, b.Index), st.Pos(), fn, "IsDest is set while the value is being built (or cleared)", "IsDest of an existing reply / hop is set after the fact: the mark no longer belongs to the reply whose address and RTT the hop shows (a time-exceeded from a router can end up marked as the destination)")
+			}
+		}
+	}
+	R.Floor("R04.5:isdest-stores", n, 4)
+}
+
+// checkUnreachablePredicate: the parser's "destination unreachable" test looks at the ICMP TYPE only. For UDP any ICMP error
+// from the target proves arrival; a test on type AND code (port unreachable only) drops admin-prohibited / host-unreachable
+// answers of the target, so the destination is never marked.
+func checkUnreachablePredicate(c *Ctx, rule string) {
+	R := c.R
+	f := c.P.Func("(*packets.FrameParser).IsDestinationUnreachable")
+	if f == nil {
+		R.Fail(rule, "packets.IsDestinationUnreachable#anchor", 0, "", "anchor (*packets.FrameParser).IsDestinationUnreachable no longer resolves")
+		return
+	}
+	fn := core.FuncName(f)
+	rps, _ := core.ReturnPaths(c.P, f, 500)
+	n := 0
+	for _, rp := range rps {
+		r := rp.Results[0]
+		if r.Op == "const" {
+			continue
+		}
+		n++
+		ok := r.Op == "binop" && r.Name == "==" && len(r.Args) == 2
+		if ok {
+			typeOnly := false
+			for _, a := range r.Args {
+				if a.Op == "call" && strings.HasSuffix(a.Name, "TypeCode).Type") {
+					typeOnly = true
+				}
+			}
+			ok = typeOnly
+		}
+		R.Check(ok, rule, fmt.Sprintf("%s#type-only@b%d", fn, rp.Ret.Block().Index), rp.Ret.Pos(), fn, "destination-unreachable is recognised by its ICMP type alone", "destination-unreachable is recognised by "+r.String()+", not by the ICMP type alone: unreachable answers with other codes (admin-prohibited, host unreachable) sent by the target are not used, so the destination is never marked for UDP")
+	}
+	R.Floor(rule+":unreachable-forms", n, 2)
 }
 
 // R04.3: GetDestinationHop and runE2eProbeOnce.
